@@ -13,7 +13,7 @@ CLAIMED = {
         level='exploration',
         text='Seeded search over generated module sets (own or shared poll thread, optionally a module with enablePoll = '
              'False and a configured start-up write on the shared thread, which must never be polled), read-duration/'
-             'failure scripts (incl. TimeoutSECoPError/NotImplementedSECoPError), run-time interval changes, '
+             'failure scripts (incl. TimeoutSECoPError/NotImplementedSECoPError), run-time interval changes (optionally with another, failing subscriber of the interval), '
              'immediate triggers (also back to back) and clock jumps; the real poll thread body runs in virtual time under the '
              'deterministic scheduler and the recorded call log is checked against staleness/starvation bounds. '
              'Sampling, not proof: a clean batch is evidence.',
@@ -29,6 +29,7 @@ CLAIMED['C08'] = dict(
          'real TCPRequestHandler connections racing poll threads and extra driver tasks at lock operations and at '
          'line events of dispatcher.py/modulebase.py; each connection\'s line stream is judged against the ground-truth '
          'history of the parameter cache (snapshot completeness and currency, last message = cache at quiescence, '
+         'optionally a client which stops reading for seconds behind a small receive buffer while updates flow (a send of the node may time out: the connection is then either served or closed), '
          'no cache state skipped while a parameter stays in scope, nothing after the scope-ending reply, no cross-talk, '
          'nothing left in the dispatcher of a connection whose handler has finished; a run which cannot end because '
          'a request is never answered is a violation).',
@@ -39,7 +40,7 @@ CLAIMED['C08'] = dict(
 CLAIMED['C05'] = dict(
     level='exploration',
     text='Seeded search over driver-side histories (reads ok/raising/invalid, writes, assignments equal/different/'
-         'invalid, values stamped by a coarse device clock, explicit and repeated error announcements, gaps below/above '
+         'invalid (also the driver\'s own mutable receive buffer assigned to a blob), values stamped by a coarse device clock, explicit and repeated error announcements, gaps below/above '
          'the suppression window) from 1..3 '
          'tasks against generated parameters of all datatypes (64 bit integers, strings with lone surrogates as '
          'surrogateescape decoding gives them) and all omit_unchanged_within/update_unchanged settings. Judged (i) against a register model fed from the operations and (ii) by replaying the byte stream '
@@ -90,7 +91,7 @@ CLAIMED['C11'] = dict(
     text='Seeded search over 2..4 caller threads x request mixes (equal/distinct keys, unknown actions, unique id per '
          'request) against a scripted SECoP peer (reply order and delay up to beyond the time-out, error replies, '
          'updates, streamed updates of an active node, unsolicited replies, garbage, half lines, replies written in two '
-         'pieces with a pause) with peer '
+         'pieces with a pause, a peer which takes only 12..24 bytes at a time) with peer '
          'close/reset/black hole, refused reconnects '
          'and user disconnect at arbitrary points, pre-empting the real SecopClient/AsynTcp threads at lock '
          'operations and line events of client/__init__.py. Checked per caller: own reply or error, no duplicate '
@@ -111,7 +112,7 @@ CLAIMED['C12'] = dict(
          'the rx thread by sync markers, optionally a restart of the peer with another description (module added, '
          'accessible changed) which the client meets by reconnecting on its own; (e2e) real client <-> real node with recording drivers, '
          'setParameter/getParameter/execCommand over generated parameters of every datatype (incl. integers beyond '
-         '2**53), structs with optional members left out at any depth, two concurrent writers through one client; (proxy) the same through '
+         '2**53), an accepting side which takes only 16..40 bytes at a time, structs with optional members left out at any depth, two concurrent writers through one client; (proxy) the same through '
          'a real node of frappy.proxy modules, with a connection drop; in both while the drivers of the node publish '
          'values of their own (second sender on the connection). Cache = import of the last message, timestamp '
          'never in the future, each callback exactly once per message in order, driver argument = caller value, '
@@ -127,7 +128,7 @@ CLAIMED['C16'] = dict(
          'against real StringIO/BytesIO + AsynTcp and a scripted device (token echo, reply delays up to beyond the '
          'time-out, unsolicited messages in segments of their own or in the segment of a reply, incomplete messages '
          'followed by silence, close before/inside/after a reply, refused reconnects; LF or CR LF lines, fixed or '
-         'variable-length byte replies; optionally a reconnect callback which talks to the device), with network chunking and '
+         'variable-length byte replies; optionally a reconnect callback which talks to the device, optionally a slow state callback), with network chunking and '
          'pre-emption at lock operations and line events of io.py/asynconn.py. Checked: own reply per command (stale = '
          'read from the socket before the command left, judged on the byte stream by the event number of the recv), '
          'communicator lock (no overlapping in-flight windows, no foreign command '
@@ -198,7 +199,7 @@ CLAIMED['C14'] = dict(
          'events of statemachine.py). Trace invariants: cycle never raises and is bounded, init flag exactly on the first '
          'call after each transition, every cleanup at most once, a cleanup sequence neither interrupted nor abandoned, '
          'starts take effect in issue order, the last stop/start wins with exactly its attributes once things are quiet. '
-         'Second world: a HasStates Drivable in a real node driven over the wire (busy status from the acknowledged '
+         'Second world: a HasStates Drivable in a real node driven over the wire (a stop accepted last - also during a stop cleanup of several cycles with a new start waiting - is not followed by a complete run; busy status from the acknowledged '
          'change until the run ends, final/stopped/error status afterwards).',
     note='Trusted: simulation kernel, harness state functions, the transition hook as observation point. Module world: '
          'busy/final-status rules are judged for runs started on an idle machine without overlapping requests. Known '
@@ -212,7 +213,7 @@ CLAIMED['C15'] = dict(
          'shutdown, never), shuffled declaration order, Pinata with dynamic modules (first, in the middle or last; a '
          'configured module may be attached to a scanned one), attachments named io (polled by the thread of the '
          'attached module, chains included), shared communicator through uri, '
-         'configured writes (one of them may fail once with a communication error), failing early/late initialisation, slow or hanging first polls, shutdown during a read '
+         'configured writes (also of a value equal to the default; one of them may fail once with a communication error), failing early/late initialisation, slow or hanging first polls, shutdown during a read '
          '(shorter and longer than the grace time), optionally a restart (shutdown, then the same configuration '
          'started again in the same process, judged like the first generation) - '
          'running the real Server._processCfg, start events, poll threads and SecNode.shutdown_modules. Event log rules: '
@@ -231,7 +232,7 @@ CLAIMED['C10'] = dict(
          'poll of that module; start values, overridden limits/unit/visibility/readonly/group must show in cache and '
          'description and limits must be used by later range checks (wire probes); with 0..3 injected errors (unknown '
          'name, unknown parameter property, wrong type, missing mandatory property, required value missing, inverted '
-         'limits, bad module property; two modules of one class each with its own configuration; an optional parameter of a base class which the class of the module does not '
+         'limits, bad module property, a value longer than the maxchars/maxbytes/maxlen given with it; two modules of one class each with its own configuration; an optional parameter of a base class which the class of the module does not '
          'implement) start-up must end with the error report naming every failing module and no '
          'configured value may have reached any driver. In a quarter of the runs the node is restarted on the same '
          'loaded configuration (as Server.run does after Server.restart) and the second generation is judged.',
@@ -245,7 +246,7 @@ CLAIMED['C18'] = dict(
     text='Seeded search over generated layouts (StructParam with combined or member access methods, FloatEnumParam label '
          'sets, limit parameters min/max/limits (incl. limits of exactly zero), 1..3 HasOutputModule controllers on one HasControlledBy output, '
          'optionally a second output with a controller of its own) and '
-         'operation histories issued alternately by a wire client and by the driver while the poll thread runs, with '
+         'operation histories issued alternately by a wire client and by the driver while the poll thread runs and up to two other clients subscribe and leave all the time, with '
          'one-shot hardware faults inside struct accesses and, where frappy establishes consistency inside the update '
          'lock, a concurrent driver-side assignment. After '
          'every operation: struct and members agree member by member and a write leaves the other members alone; the '
@@ -263,14 +264,14 @@ CLAIMED['C06'] = dict(
     level='exploration',
     text='Seeded search over nodes built from generated module classes (all datatypes, readonly/constant/export flags, '
          'commands, unexported modules, constants of every datatype declared in the class or given in the configuration '
-         '(also non-finite), the export of single parameters given in the configuration, limits learnt in startModule) and from the shipped hardware-free configurations '
+         '(also non-finite), the export of single parameters given in the configuration, limits learnt in startModule, a module configured with an uri whose communicator the node creates by itself) and from the shipped hardware-free configurations '
          '(demo, sim, cryo, test, sim_mlz_htf02, sim_mlz_cci3he1, ls370sim; their threads, sleeps and random numbers run '
          'behind the seams), probed by a describing client over the wire while poll threads and a second client run '
          'and the driver now and then assigns a reading the datatype refuses: '
          'description strict JSON and stable between calls; described datainfo accepts/rejects what the node does '
          '(reference validator); every emitted value (read/changed replies, updates) importable by the reference '
          'validator and by frappy\'s own client datatype; readonly/constant flags predict refusal, constants read as '
-         'described; undescribed modules/accessibles (known to the harness) unreachable by read/change/do/activate.',
+         'described; every module object with export=True is listed; undescribed modules/accessibles (known to the harness) unreachable by read/change/do/activate.',
     note='Trusted: simulation kernel, reference validator (DONTCARE = leniencies), the harness\' knowledge of what exists '
          'but is not exported. The clause "interface class and features match the implementing class" is checked '
          'in generated mode (generated feature mixins, classes derived from the class of an earlier module). In shipped mode a refused '
